@@ -588,6 +588,11 @@ class CallMixin:
                 out.append((s2, Exc(ValueError, "length should not be negative")) if neg
                            else (s2, slice_indices(self_, args[0])))
             return out
+        if kind == "recslot" and name == "CopyFrom":
+            if not isinstance(args[0], SRef):
+                raise Unsupported("CopyFrom of a non-record", node)
+            self.write_field(st, self_.owner, self_.field, args[0])    # (value semantics: the copy is never aliased)
+            return [(st, None)]
         if kind == "str":
             return self.str_method(st, self_, name, args, node)
         if kind == "py":
